@@ -68,6 +68,7 @@ Fixpoint print (e : rexpr) : list string :=
   | RCall f args => print f ++ ["("] ++ plist args ++ [")"]
   | RThenCall o arg => ["("; "{"; "let"; n_handler_tmp; "="] ++ print o ++ [";"; n_handler_tmp; "}"; "("] ++ print arg ++ [")"; ")"]
   | RClosure x body => ["|"; x; "|"] ++ print body
+  | RClosureMove x body => ["move"; "|"; x; "|"] ++ print body
   | RClosureIgn body => ["|"; "_"; "|"] ++ print body
   | RMoveThunk body => ["move"; "|"; "|"] ++ print body
   | RNot e => ["!"] ++ print e
